@@ -106,7 +106,19 @@ def is_default_range(idx):
     return isinstance(idx, pd.RangeIndex)
 
 
-def frames_equal(got, exp, check_index=True, check_categories=True, check_dtype=True):
+def _loosen(cells):
+    """Numbers by value: 1, 1.0 and True are one label (drill directory names "1" and "1.0"
+    coerce to equal numbers and share one category; which spelling survives is arbitrary)."""
+    out = []
+    for c in cells:
+        if isinstance(c, tuple) and c and c[0] in ("i", "b"):
+            out.append(("f", float(c[1]).hex()))
+        else:
+            out.append(c)
+    return out
+
+
+def frames_equal(got, exp, check_index=True, check_categories=True, check_dtype=True, loose_numbers=False):
     """None when equal, else (aspect, detail).  RangeIndex labels are positional and
     never compared (both must then be RangeIndex-like or the other side's index is
     compared by value when it is not a RangeIndex)."""
@@ -121,6 +133,8 @@ def frames_equal(got, exp, check_index=True, check_categories=True, check_dtype=
         ed, ecells = canon_array(e)
         if check_dtype and gd != ed:
             return ("dtype", "column %r: dtype %s vs %s" % (gc[pos], gd, ed))
+        if loose_numbers:
+            gcells, ecells = _loosen(gcells), _loosen(ecells)
         d = first_cell_diff(gcells, ecells)
         if d:
             return ("value", "column %r: %s" % (gc[pos], d))
